@@ -870,6 +870,9 @@ pub fn corpus_values(prop: Prop, extra_generated: usize, base: u64) -> Vec<Value
             v.push(vs(Shape::Many, vec![c[22].clone(), c[10].clone(), c[24].clone(), c[1].clone()]));
             v.push(vs(Shape::Entry, vec![c[22].clone()]));
             v.push(vs(Shape::Tagged, vec![c[11].clone()]));
+            v.push(vs(Shape::Opt, vec![c[10].clone()]));
+            v.push(vs(Shape::Untagged, vec![c[22].clone()]));
+            v.push(vs(Shape::Flatten, vec![c[12].clone()]));
             v.push(vs(Shape::Keyed, vec![c[1].clone(), c[22].clone(), c[8].clone()]));
             v.push(vs(Shape::Keyed, vec![]));
             v
@@ -883,6 +886,9 @@ pub fn corpus_values(prop: Prop, extra_generated: usize, base: u64) -> Vec<Value
             v.push(rs(Shape::Many, vec![c[56].clone(), c[8].clone(), c[49].clone()]));
             v.push(rs(Shape::Entry, vec![c[49].clone()]));
             v.push(rs(Shape::Tagged, vec![c[56].clone()]));
+            v.push(rs(Shape::Opt, vec![c[7].clone()]));
+            v.push(rs(Shape::Untagged, vec![c[49].clone()]));
+            v.push(rs(Shape::Flatten, vec![c[54].clone()]));
             v.push(rs(Shape::Keyed, vec![c[7].clone(), c[54].clone()]));
             v
         }
